@@ -8,7 +8,9 @@
 // (b) property oracle (differential, independent of the model): every operation's canonical answer on every
 //     configuration must equal the baseline's answer to the same operation – hence pairwise equal. A configuration
 //     with a unique index is compared only up to the first call that index rejects (a unique index is *meant* to
-//     change the outcome of such a call); that a rejection leaves no trace is C12's.
+//     change the outcome of such a call); that a rejection leaves no trace is C12's. In addition every find of every
+//     configuration is compared with the reference evaluation of its filter over the SAME store's full scan
+//     (`Find(nil)`), which keeps checking after such a rejection: an index that lost or kept a stale document shows.
 package c11
 
 import (
@@ -109,9 +111,32 @@ func replay(k *sg.Case, ops []sg.Op, cfg []placed) []string {
 				k.C.Hit("index-op:" + r.Canon(p.op))
 			}
 		}
-		out[i] = k.Do(o).Canon(o)
+		res := k.Do(o)
+		out[i] = res.Canon(o)
+		scanCheck(k, o, res, cfg)
 	}
 	return out
+}
+
+// scanCheck: whatever the index configuration and whatever a unique index rejected before, a find must return what
+// the reference evaluation of its filter selects from the SAME store's full scan (`Find(nil)` has no plan: it walks
+// the primary tree). This keeps checking a configuration after the point where it legitimately parts from the
+// baseline (a unique index rejected a call) – where a half-applied rejected write shows: the document is in the
+// primary tree but missing from the indexes created after the unique one.
+func scanCheck(k *sg.Case, o sg.Op, res sg.Result, cfg []placed) {
+	if o.Kind != "find" || res.Kind != "docs" {
+		return
+	}
+	scan := sg.Exec(k.St, sg.Op{Kind: "find"})
+	if scan.Kind != "docs" {
+		return
+	}
+	ref := &sg.RefStore{Docs: scan.Docs}
+	if msg := ref.Apply(o).Check(o, res); msg != "" {
+		k.Fail("index-vs-full-scan", fmt.Sprintf("`%s` with indexes [%s] disagrees with the reference evaluation over the same store's full scan: %s",
+			o.Line(), describe(cfg), msg))
+	}
+	k.C.Hit("oracle:find-vs-own-full-scan")
 }
 
 // transition is a directed history around ONE partial index whose filter looks at a field that is not an
@@ -197,9 +222,24 @@ func transition(c *lib.Ctx, rng *lib.RNG) ([]sg.Op, []placed) {
 func history(c *lib.Ctx, sc *lib.Script, fails *[]lib.OracleFail, rng *lib.RNG, depth, steps, configs int) {
 	ops := genHistory(c, rng, depth, steps)
 	var directed []placed
-	if rng.Chance(1, 5) {
+	directedUnique := false
+	switch rng.Weighted([]int{7, 2, 2}) {
+	case 1:
 		ops, directed = transition(c, rng)
 		c.Hit("history:partial-index-transition")
+	case 2:
+		// unique first, plain later; documents lacking the unique key (seeded change c11e)
+		sops, u, p := (&sg.Gen{R: rng, Depth: depth, Hit: c.Hit}).SparseUnique()
+		at := 0
+		if rng.Chance(1, 3) {
+			at = rng.Intn(len(sops))
+		}
+		uat := 0
+		if rng.Chance(1, 4) {
+			uat = rng.Intn(at + 1)
+		}
+		ops, directed, directedUnique = sops, []placed{{uat, u}, {at, p}}, true
+		c.Hit("history:sparse-unique-then-plain")
 	}
 	base := sg.NewCase(c, sc, fails, false)
 	want := replay(base, ops, nil)
@@ -208,7 +248,7 @@ func history(c *lib.Ctx, sc *lib.Script, fails *[]lib.OracleFail, rng *lib.RNG, 
 		unique := rng.Chance(1, 4)
 		cfg := genConfig(rng, g, len(ops), unique)
 		if directed != nil && n == 0 {
-			cfg, unique = directed, false
+			cfg, unique = directed, directedUnique
 		}
 		k := sg.NewCase(c, sc, fails, false)
 		got := replay(k, ops, cfg)
